@@ -288,7 +288,12 @@ impl<'a, S: Sut> Runner<'a, S> {
                 Ok(())
             }
             Ev::Clear(_) | Ev::Restart(_) => Ok(()),
-            Ev::Neg(_) | Ev::Split2 | Ev::Split3 => {
+            // neg of a NaR quire is covered: C04 says a NaR quire stays NaR until cleared (neg is not
+            // clear), C12 says neg acts on every reachable state; the expectation is "still NaR,
+            // returns". The splits of a NaR quire are left out (the statement defines p2, p3 by
+            // exact subtractions on a sum).
+            Ev::Neg(_) => Ok(()),
+            Ev::Split2 | Ev::Split3 => {
                 if self.poisoned {
                     Err("state op on a NaR quire is outside the statement".into())
                 } else {
@@ -725,7 +730,9 @@ impl<'a, S: Sut> Runner<'a, S> {
                 self.st.hit(Pr::ev_neg);
                 self.any_special = true;
                 let m = self.r.abs();
-                if self.r.is_zero() {
+                if self.poisoned {
+                    self.st.hit(Pr::neg_of_nar);
+                } else if self.r.is_zero() {
                     self.st.hit(Pr::neg_of_zero);
                 } else {
                     let img = m.image(qt.w());
@@ -740,8 +747,16 @@ impl<'a, S: Sut> Runner<'a, S> {
                 if let Err(m) = catch(|| a.neg(*via)) {
                     return Err(self.fail(Clause::PanicState, step, "neg returns".into(), format!("panic: {m}")));
                 }
-                self.r = self.r.neg();
-                self.check_model(step, Clause::Neg)
+                if !self.poisoned {
+                    self.r = self.r.neg();
+                }
+                self.check_model(step, Clause::Neg).map_err(|mut f| {
+                    // a NaR quire that neg() turned into something else fails an observer first
+                    if self.poisoned && f.clause.property() == Mode::C04 && !matches!(f.clause, Clause::PanicAcc) {
+                        f.clause = Clause::Neg;
+                    }
+                    f
+                })
             }
             Ev::Load(p, via) => {
                 self.st.hit(Pr::ev_load);
